@@ -111,6 +111,13 @@ func runC07x(c c07Case, st *c07Stats, prof *[][]IOEvent) *Mismatch {
 		fired = w.File.Failed() > 0
 		w.File.Arm(0, 0, false)
 		st.Attempts++
+		if !w.Hang && obs != "PANIC" {
+			if m := w.IO.checkIO(op, obs, w.File.LogFrom(l0), op.H == 0); m != nil {
+				m.Step, m.Op = i, op.String()
+				m.Note = fmt.Sprintf("file call %d of this call made to fail (torn=%d)", k, torn)
+				return obs, fired, 0, m
+			}
+		}
 		if false {
 			for _, e := range w.File.LogFrom(l0) {
 				fmt.Printf("  step %d k=%d torn=%d: %c off=%d len=%d fail=%v sizeB=%d\n", i, k, torn, e.Kind, e.Off, e.Len, e.Fail, e.SizeB)
@@ -236,6 +243,12 @@ func runC07x(c c07Case, st *c07Stats, prof *[][]IOEvent) *Mismatch {
 		if !done {
 			l0 := w.File.LogLen()
 			got := w.Do(op)
+			if !w.Hang && got != "PANIC" {
+				if m := w.IO.checkIO(op, got, w.File.LogFrom(l0), op.H == 0); m != nil {
+					m.Step, m.Op = i, op.String()
+					return m
+				}
+			}
 			if prof != nil {
 				for len(*prof) < i {
 					*prof = append(*prof, nil)
